@@ -51,6 +51,8 @@ type Server struct {
 	done   chan struct{}
 	closed bool
 	mu     sync.Mutex
+	// keepBlock: the port block belongs to the caller (server restarts on the same ports)
+	keepBlock bool
 }
 
 type ServerOpt func(*v1.ServerConfig, *Block)
@@ -89,6 +91,27 @@ func WithServerTCPMux(on bool) ServerOpt {
 	return func(c *v1.ServerConfig, b *Block) { c.Transport.TCPMux = lo.ToPtr(on) }
 }
 func WithCfg(f func(c *v1.ServerConfig, b *Block)) ServerOpt { return f }
+
+// StartServerOn starts frps on a block the caller already holds (server restart on the
+// same ports). The block is NOT released by Close of the returned server when keep is true.
+func StartServerOn(b *Block, opts ...ServerOpt) (*Server, error) {
+	cfg := BaseServerConfig(b)
+	for _, o := range opts {
+		o(cfg, b)
+	}
+	cfg.Complete()
+	svc, err := server.NewService(cfg)
+	if err != nil {
+		return nil, Inconclusive("cannot start frps on held block: %v", err)
+	}
+	ctx, cancel := context.WithCancel(context.Background())
+	s := &Server{Cfg: cfg, Svc: svc, Block: b, cancel: cancel, done: make(chan struct{}), keepBlock: true}
+	go func() {
+		svc.Run(ctx)
+		close(s.done)
+	}()
+	return s, nil
+}
 
 // StartServer leases a block and starts frps on it. Bind failures are retried
 // with another block and are reported as inconclusive, never as a violation.
@@ -139,7 +162,9 @@ func (s *Server) Close() {
 		// without the hook the vhost HTTP listener stays bound: never reuse this block
 		return
 	}
-	s.Block.Release()
+	if !s.keepBlock {
+		s.Block.Release()
+	}
 }
 
 func (s *Server) BindAddr() string { return fmt.Sprintf("127.0.0.1:%d", s.Cfg.BindPort) }
